@@ -310,7 +310,10 @@ class P(Prop):
         (M, "TV.C08.track_query_returns", "request(track) does not raise when every vertex of the query track is inside the closed extent"),
         (M, "TV.C08.units_sound", "with positive cell sides groundDistanceToUnits(d) returns floor(d/min(dX,dY)+1) and points at most d apart on each axis fall in cells whose column/row indices (floors, and the clamped cell indices) differ by at most that many units"),
         (M, "TV.C08.neighboringCells_square", "__neighboringcells(i,j,u) is exactly the Chebyshev square of radius u around (i,j) clipped to the grid"),
+        (M, "TV.C08.neighborhood_finds_registered", "on any index on which nothing raises (built, or built and then extended by addFeature / Network.addEdge), neighborhood(q, unit=groundDistanceToUnits(d)) returns every feature listed in the cell of a point of the extent within distance d of q: the answer depends on the grid as it is now only"),
         (M, "TV.C08.neighborhood_complete", "groundDistanceToUnits(d) and neighborhood(q, unit=groundDistanceToUnits(d)), EVERY q of the closed extent, d >= 0, do not raise and every feature with a point within Euclidean distance d of q is returned"),
+        (M, "TV.C08.late_feature_complete", "addFeature(track, num) on an existing index (= Network.addEdge on an indexed network), all vertices inside the extent: returns, keeps extent / dimensions / everything registered before, every point of the track lies in a cell listing num, a point request there and a neighbourhood query from a ground distance d around any q within d of the track return num"),
+        (M, "TV.C08.built_index_good", "a built index satisfies the hypotheses (Good, Tiled) of late_feature_complete, which keeps them: the theorem applies to any sequence of later additions"),
         (M, "TV.C08.grid_always_builds", "the repairs 9a44198 and degenerate-extent: default or positive explicit cell size, ANY bounding box (thin, flat, a single point, shorter than the cell size): __init__ reaches the registration loop without raising, with >= 1 column and >= 1 row, positive cell sides, cells tiling every axis of positive length exactly and one column / row on an axis of zero length"),
         (M, "TV.C08.flat_axis_single_column", "on a built index whose extent has zero length along an axis (a straight north-south or east-west track) that axis has one column / row and every point of the extent has index 0 on it"),
         (M, "TV.C08.isFloor_ratFloor", "Rat.floor, the driver's math.floor, satisfies the floor contract assumed by the theorems"),
@@ -319,7 +322,7 @@ class P(Prop):
     open_statements = [
         "theorems are over an ordered field with an exact floor: IEEE rounding in (x-xmin)/dX and in the straddle products is outside them (sampled by the flt stream with a 1e-7-cell guard); in particular a vertex exactly on the upper border whose computed index exceeds csize by an ulp is clamped into the last column, but a segment lying wholly on that border is then tested at abscissa csize(1+ulp), outside the closed last cell",
         "the unit = -1 incremental searches of neighborhood and the given-unit segment/track neighbourhoods are modelled and compared with the implementation, no theorem is stated about them (the property does not mention them)",
-        "later addFeature calls (after construction) with vertices outside the extent are modelled and compared (the `continue` that keeps a stale coord1), no theorem is stated about them",
+        "later addFeature calls with a vertex OUTSIDE the extent are modelled and compared (the `continue` that keeps a stale coord1 and so registers a chord instead of the two legs), no theorem is stated about them: late_feature_complete is about additions inside the extent",
     ]
     modelled = ("TrackCollection.createSpatialIndex (its verbose flag becomes the constructor's margin) and Network.createSpatialIndex as front ends, Network.addEdge on an indexed network (= addFeature with the running edge number); "
                 "SpatialIndex.__init__ (extent from bbox + margin, explicit and default resolution, one column / row and a non-zero cell side on a degenerate axis), __getCell, "
